@@ -21,6 +21,8 @@
 // then `end ok`.  A sanitizer report / crash ends the process without an `end` line (status `abort`).
 #include <tulz/threading/Thread.h>
 
+#include "../painted.h"
+
 using verif::ev;
 
 #define NOINLINE __attribute__((noinline))
@@ -201,6 +203,9 @@ static void pollOnce(tulz::Thread &t) { ev(t.isFinished() ? "finishedSeen" : "po
 static void runOne(const std::string &kind, bool ctor, int nargs) {
     int a = 10, b = 20;                                     // the caller's lvalue arguments
     alignas(tulz::Thread) unsigned char storage[sizeof(tulz::Thread)];
+    // painted storage (harness/painted.h): a member the Thread constructors forget has a known value
+    std::memset(storage, verif::paintFor(kind + (ctor ? "c" : "s") + std::to_string(nargs)), sizeof storage);
+    __asm__ __volatile__("" : : "r"(storage) : "memory");
     tulz::Thread *t = reinterpret_cast<tulz::Thread *>(storage);
     g_thread = nullptr; g_arg0 = &a; g_out = 0; g_functorCopies = 0;
     TrackedRunnable::live = 0; TrackedRunnable::destroyed = 0;
